@@ -3,7 +3,7 @@
    Used by C01 (replies + contents), C02 (evictions, L1 subset of L2), C09 (deadlines). *)
 From Coq Require Import String.
 From Rend Require Import base.Bytes base.Harness gen.Consts_gen spec.MapSpec orca.Types handlers.Std
-  orca.Orcas proto.Resp.
+  orca.Orcas proto.Resp proto.Frames proto.FramesSpec.
 Open Scope N_scope.
 
 Inductive orcakind := KL1Only | KL1L2 | KL1L2Batch.
@@ -170,6 +170,13 @@ Fixpoint run01 (mode : N) (p : proto) (two : bool) (keys : list bytes) (steps : 
           (bytes_eqb (s_reply st) (s_ref st) ||
            (oracle_reply p s now r o (s_reply st) && oracle_reply p s now r o (s_ref st))) &&
           (if two then l1_subset_l2 now keys d1 d2 else true)
+        else if mode =? 8 then
+          (* reply discipline: complete well-formed frames, one reply per request, one terminator per get *)
+          closed_ok &&
+          match decode p (s_reply st) with
+          | Some fs => discipline p r (hits_of s now r) (loud_misses_of s now r) fs
+          | None => false
+          end
         else deadlines_ok now keys s' d1 && (if two then deadlines_ok now keys s' d2 else true) &&
              contents_ok now keys s' auth in
       let corr :=
@@ -203,7 +210,11 @@ Fixpoint debug01 (mode : N) (p : proto) (two : bool) (keys : list bytes) (steps 
       let d2 := of_dump (s_l2 st) in
       let auth := if two then d2 else d1 in
       let closed_ok := negb (s_closed st && negb (match r with RQuit _ _ => true | _ => false end)) in
-      let o1 := closed_ok && (if mode =? 9 then true else if mode =? 2 then
+      let o1 := closed_ok && (if mode =? 9 then true else if mode =? 8 then
+                   match decode p (s_reply st) with
+                   | Some fs => discipline p r (hits_of s now r) (loud_misses_of s now r) fs
+                   | None => false end
+                 else if mode =? 2 then
                    (bytes_eqb (s_reply st) (s_ref st) ||
                     (oracle_reply p s now r o (s_reply st) && oracle_reply p s now r o (s_ref st)))
                  else oracle_reply p s now r o (s_reply st)) in
